@@ -65,17 +65,28 @@ def run(ctx):
         if x.get("err"):
             ctx.violation("select-error", "BaseProposalSelector.Select failed for listing %s: %s" % (c["listing"], x["err"][:200]), case)
             continue
-        # what the real code selected, in order
-        if x["selected"]:
-            chain = x["selected"]
-        elif x["asked"]:
-            chain = x["asked"]
-        else:
-            chain = [x["winner"]]
-        # a proposer that was selected but never asked although it is not local: the wait ran out before the first
-        # request (busy machine) - the script did not happen as written, skip (never an alarm)
-        if any(p != c["local"] and p not in x["asked"] for p in chain[:-1]) or (
-                c["nfail"] > 0 and chain and chain[0] != c["local"] and chain[0] not in x["asked"]):
+        # what the real code selected, in order: the nodes the real ProposerSelectFunc returned; with one node listed
+        # the code does not call it and uses that node
+        ev = [tuple(e) for e in x["events"]]
+        chain = [n for (k, n) in ev if k == 0]
+        if not chain and len(c["listing"]) == 1:
+            chain = list(c["listing"])
+        if not chain:
+            ctx.violation("nothing-selected", "no proposer was selected for listing %s" % c["listing"], case)
+            continue
+        # the script did not happen as written when the proposer wait ran out before a selected node was asked (the
+        # code then drops it without a request): every selected node other than local that is followed by another
+        # selection must have been asked in between; with failures scripted also the last one. Skip, never an alarm.
+        stalled = False
+        sel_pos = [j for j, (k, n) in enumerate(ev) if k == 0]
+        for a, j in enumerate(sel_pos):
+            n = ev[j][1]
+            end = sel_pos[a + 1] if a + 1 < len(sel_pos) else len(ev)
+            if n != c["local"] and (a + 1 < len(sel_pos) or x["winner"] != n) and (1, n) not in ev[j + 1:end]:
+                stalled = True
+        if len(c["listing"]) == 1 and chain[0] != c["local"] and (1, chain[0]) not in ev:
+            stalled = True
+        if stalled:
             skipped += 1
             continue
         for p in chain:
@@ -83,8 +94,11 @@ def run(ctx):
                 ctx.violation("non-member", "node %s selected for suffrage %s (listing %s)" % (p, list(S), c["listing"]), case)
         if x["winner"] not in S and x["winner"] != c["local"]:
             ctx.violation("non-member", "proposal by %s returned for suffrage %s" % (x["winner"], list(S)), case)
+        if c["nfail"] == 0 and x["winner"] != chain[0]:
+            ctx.violation("proposal-not-from-selected-proposer", "listing %s: %s selected, proposal of %s returned" % (
+                c["listing"], chain[0], x["winner"]), case)
         if not x["valid"]:
-            ctx.violation("invalid-proposal", "the proposal returned for listing %s is not valid for the point/previous block" % c["listing"], case)
+            ctx.violation("wrong-proposal", "the proposal returned for listing %s is not for the point/previous block asked" % c["listing"], case)
         if len(set(chain)) != len(chain):
             ctx.violation("failed-proposer-selected-again", "selected %s for listing %s" % (chain, c["listing"]), case)
         g = groups.setdefault((S, c["h"], c["r"], c["hs"]), {})
